@@ -87,8 +87,46 @@ func init() {
 			w.P("/-- internal/wire/transport_parameters.go readNumericTransportParameter case %s: rejected when val < this -/", it.caseConst)
 			w.P("def %s : Int := %s", it.lean, v)
 		}
+		w.P("/-! ### guards that protect slice indexing -/")
+		pa, err := firstIfLenGuard(c, wp, "TransportParameters", "readPreferredAddress")
+		if err != nil {
+			return err
+		}
+		w.P("/-- internal/wire/transport_parameters.go readPreferredAddress: `if len(b) < this { return io.EOF }` (first statement guarding the fixed-offset reads) -/")
+		w.P("def preferredAddressMinLen : Int := %s", pa)
 		return nil
 	})
+}
+
+// firstIfLenGuard returns the constant C of the first `if len(x) < C` statement of a method.
+func firstIfLenGuard(c *Ctx, p *Pkg, recv, name string) (string, error) {
+	fd := p.FuncDecl(recv, name)
+	if fd == nil || fd.Body == nil {
+		return "", fmt.Errorf("%s.%s not found", recv, name)
+	}
+	for _, s := range fd.Body.List {
+		is, ok := s.(*ast.IfStmt)
+		if !ok {
+			continue
+		}
+		be, ok := is.Cond.(*ast.BinaryExpr)
+		if !ok || be.Op != token.LSS {
+			return "", fmt.Errorf("%s.%s: first if is not `len(b) < const`", recv, name)
+		}
+		call, ok := be.X.(*ast.CallExpr)
+		if !ok {
+			return "", fmt.Errorf("%s.%s: first if is not `len(b) < const`", recv, name)
+		}
+		if id, ok := call.Fun.(*ast.Ident); !ok || id.Name != "len" {
+			return "", fmt.Errorf("%s.%s: first if is not `len(b) < const`", recv, name)
+		}
+		v, ok := constOf(p, be.Y)
+		if !ok {
+			return "", fmt.Errorf("%s.%s: guard bound is not constant", recv, name)
+		}
+		return v, nil
+	}
+	return "", fmt.Errorf("%s.%s: no length guard found", recv, name)
 }
 
 // emitVarIntList emits a package-level `var X = []T{a, b}` of integer constants.
